@@ -11,6 +11,7 @@ import (
 	"os"
 	"path/filepath"
 	"strings"
+	"time"
 
 	"github.com/magisterquis/curlrevshell/lib/sstls"
 )
@@ -142,7 +143,7 @@ func certMain(args []string) {
 				)
 				func() {
 					defer func() { pan = recover() }()
-					c, err = sstls.GetCertificate("", nil, nil, 0, path)
+					c, err = sstls.GetCertificate("", nil, nil, time.Duration(num(op["life_s"]))*time.Second, path) /* life_s < 0: a certificate that has already expired */
 				}()
 				after, mode := fileState(cf)
 				st["before"], st["after"], st["mode"] = before, after, mode
